@@ -213,7 +213,7 @@ theorem cleared_only_after_a_day (s : TaskSt κ) (t : Nat) (h : (taskStep s (.ti
   · simp [taskStep, hc] at h
 
 theorem status_task_facts :
-    Gpa.Facts.statusClearSeconds = 86400 ∧ Gpa.Facts.statusClearTest = 1 ∧ Gpa.Facts.statusClearRestarts = 2 := by decide
+    Gpa.Facts.statusClearSeconds = 86400 ∧ Gpa.Facts.statusClearTest = 1 ∧ Gpa.Facts.statusClearResetsTimer = 1 := by decide
 
 end statusTask
 
